@@ -67,6 +67,16 @@ def run(tier, seed, replay):
     rng = random.Random(seed)
     nt, nimg, ninsn = (6, 6, 120) if tier == "quick" else (48, 10, 200)
     traces = [vlib.run_scenario(ic.isa_trace_ops(rng, nimg, ninsn), "c01-isa-%d" % i)[0] for i in range(nt)]
+    # the repository's own programs, assembled by the real assembler, with key interrupts at instruction boundaries
+    from checks import textgen as tg
+    corpus_ops = [{"op": "new", "cfg": {"inr": [3, 7, 0, 0]}}]
+    for src in tg.repo_corpus():
+        corpus_ops += [{"op": "load_asm", "src": src}, {"op": "set_input", "k": 0, "v": 3}, {"op": "isa_run", "n": 150, "key_every": rng.choice([0, 5, 11])}]
+    tp_corpus, summ_corpus = vlib.run_scenario(corpus_ops, "c01-corpus")
+    # load_asm of a text the parser rejects is logged as a panic event by the harness; drop those (C03 judges them)
+    kept = [l for l in open(tp_corpus) if '"op":"panic"' not in l]
+    open(tp_corpus, "w").write("".join(kept))
+    traces.append(tp_corpus)
     res = vlib.validate_traces(traces, cfg="TraceIsa")
     nisa = ic.report_trace_results(v, traces, res, "isatrace", "instruction-level")
     nt2, nimg2, nedges = (4, 3, 700) if tier == "quick" else (32, 6, 1500)
